@@ -6,6 +6,7 @@ import (
 	"strings"
 
 	"raven/internal/db"
+	"raven/internal/delivery/parser"
 )
 
 // C15: direct call of the hashing decoder, and "objects vanish" on the fake
@@ -14,6 +15,24 @@ func init() {
 	calls["decodeContentForHashing"] = func(a []string, n []int) interface{} {
 		r, err := db.VerifDecodeContentForHashing(a[0], a[1])
 		return map[string]interface{}{"err": err != nil, "r": bs(string(r))}
+	}
+	// parseMIMEParts: the element list the store loop will see for this raw
+	// message (real parser), each with the octets the blob functions hash
+	calls["parseMIMEParts"] = func(a []string, n []int) interface{} {
+		parsed, err := parser.ParseMIMEMessage(a[0])
+		if err != nil {
+			return map[string]interface{}{"err": true}
+		}
+		out := []interface{}{}
+		for _, p := range parsed.Parts {
+			dec, derr := db.VerifDecodeContentForHashing(p.TextContent, p.ContentTransferEncoding)
+			if derr != nil {
+				dec = []byte(p.TextContent)
+			}
+			out = append(out, map[string]interface{}{"enc": bs(p.ContentTransferEncoding), "content": bs(p.TextContent),
+				"filename": bs(p.Filename), "ctype": bs(p.ContentType), "hashed": bs(string(dec))})
+		}
+		return map[string]interface{}{"err": false, "parts": out}
 	}
 	// s3_lose: {"keys":[hex object ids]} — remove blobs/<id> from the bucket
 	// (no "keys" field: remove everything)
